@@ -371,7 +371,7 @@ pub fn gen_lnk(r: &mut Rng, thorough: bool, cx: &mut Ctx) {
             let long = k % 12 == 4;                        // very long idle periods (hundreds of polls) between bytes / frames of small packets
             let np = if long { r.range(1, 2) } else { r.range(1, 8) };
             // one long gap (260, 1200, thorough: 70000 'no data yet' answers in a row) or a moderate gap (70) before every byte / frame: retry budgets, idle counters
-            let big = match (k / 12) % 4 { 0 => 260, 1 => 1200, 2 => 70, _ => if thorough && k / 12 == 3 { 70000 } else { 1200 } };     // one 70000-gap case per link (the model's poll loop is quadratic in it)
+            let big = match (k / 12) % 4 { 0 => 260, 1 => 1200, 2 => 70, _ => if thorough && k / 12 == 3 { 5000 } else { 1200 } };     // one 5000-gap case per link in the thorough tier (the model's poll loop is quadratic in the gap: 70000 took 13 minutes and a deep recursion)
             let gaps: Vec<u64> = if long { if big == 70 { vec![70] } else if link == 1 { let mut g = vec![0u64; 23]; g[11] = big; g } else { vec![0, big, 0, 0, 0, 0] } } else { match k % 6 { 0 => vec![], 1 => vec![1], 2 => vec![0, 0, 2], 3 => (0..r.range(1, 7)).map(|_| r.below(3)).collect(), 4 => vec![0, 0, 0, 0, 0, 0, 0, 5], _ => (0..r.range(1, 12)).map(|_| if r.chance(1, 4) { r.range(1, 4) } else { 0 }).collect() } };
             let mut l = vec![link, gaps.len() as u64]; l.extend(&gaps); l.push(np);
             let mut prevp: Option<Packet> = None;
